@@ -30,7 +30,7 @@ V_v2 == {"PASS", "FAIL", "TIMEOUT", "SILENCE", "BYPASS"}
 V_v2two == {"PASS", "FAIL"}
 V_legacy == {"T", "F"}
 Rep_one == {"uri"}
-Rep_all == {"uri", "strlist", "byteslist", "bytearraylist", "memviewlist", "wire"}
+Rep_all == {"uri", "strlist", "byteslist", "bytearraylist", "memviewlist", "wire", "wirebuf", "mutbuf"}
 E_all == {"bare", "lp", "lph", "lpo"}
 E_two == {"bare", "lp"}
 J_one == {"junk"}
